@@ -1,0 +1,7 @@
+//go:build !verif
+
+package lossy
+
+func verifFrameDone(enc *VP8Encoder) {}
+
+func verifAfterHeaders(dec *Decoder) {}
